@@ -6,6 +6,7 @@ from xcheck import hookx as X
 
 LEAVES = [('none',), ('inf',), ('nan',), ('int', 4), ('int', 0), ('bool', True), ('opq', 0), ('opq', 1), ('opq', 2),
           ('list', [('int', 1), ('nan',)]), ('list', [('int', 1), ('int', 2)]), ('list', [('inf',)]), ('list', []),
+          ('list', [('nan',), ('none',)]), ('list', [('opq', 0), ('inf',)]), ('list', [('none',), ('opq', 3)]),
           ('fn0', ('int', 7)), ('fn1', ('int', 8))]
 EXCS = ['EAttr', 'EValue', 'EKey', 'EZeroDiv', 'ECustom', 'EType']
 
@@ -133,7 +134,7 @@ def gen_case(rng, thorough):
     if rng.random() < 0.4:   # wrappers on level 0 (a wrapper can turn a finite value into None or a non-finite one)
         ops.append(('register', nid, dict(owner=0, hook=0, tier=1, wrapper=True, guarded=True,
                                           post=rng.choice([('add', 100), ('id',), ('raise', 'ECustom'), ('yield2',), ('const', ('inf',)), ('const', ('nan',)),
-                                                           ('const', ('list', [('int', 1), ('nan',)])), ('const', ('none',)),
+                                                           ('const', ('list', [('int', 1), ('nan',)])), ('const', ('none',)), ('pre', 'ECustom'), ('pre', 'EAttr'), ('pre', 'EZeroDiv'),
                                                            ('const', ('int', 5))]), prog=None)))
         nid += 1
     reads = []
@@ -190,7 +191,13 @@ def result_class_oracle(chk, rng, n):
     table = [(None, AttributeError), (float('inf'), ValueError), (float('-inf'), ValueError), (float('nan'), ValueError),
              (np.array([1.0, np.nan]), ValueError), ([1, float('inf')], ValueError), (np.float64('inf'), ValueError),
              (3, None), (0, None), (False, None), ("text", None), ({"a"}, None), ([1, 2], None), (np.array([1.0, 2.0]), None),
-             (ragged_ok, None), (ragged_bad, ValueError), ((lambda: 1), None), ([], None), (np.array([]), None)]
+             (ragged_ok, None), (ragged_bad, ValueError), ((lambda: 1), None), ([], None), (np.array([]), None),
+             # numbers of every numeric type, and sequences that hold a non-finite number next to something that is not a number
+             (np.float32('inf'), ValueError), (np.float16('nan'), ValueError), (np.longdouble('-inf'), ValueError), (complex('nan'), ValueError),
+             (np.array([1, np.inf], dtype=np.float32), ValueError), ([np.float32('nan')], ValueError), (np.float32(2.5), None),
+             (np.array([1.5, 2.5], dtype=np.float32), None), (np.int64(3), None),
+             ([float('nan'), None], ValueError), ([1.0, "a", float('inf')], ValueError), ((float('nan'), 1), ValueError),
+             (np.array([1, None, np.nan], dtype=object), ValueError), ([1.0, None, "a"], None), (["a", "b"], None)]
     for v, exc, wrapped in [(v, exc, w) for v, exc in table for w in (False, True)]:
         class K(HookHost):
             h = Hook[Any]()
